@@ -53,12 +53,39 @@ Proof.
   - destruct (N.eqb_spec x y) as [E|E]; symmetry; [apply N.leb_le|apply N.leb_gt]; lia.
 Qed.
 
-Theorem name_order : forall a b, valid_name a -> valid_name b ->
-  name_leb a b = lex_leb (name_string a) (name_string b).
+Lemma marker_base_link : marker_base = [95; 83; 85; 67; 67; 69; 83; 83].
+Proof. reflexivity. Qed.
+Lemma marker_suffixed_link : marker_suffixed = false.
+Proof. reflexivity. Qed.
+
+Lemma lex_leb_refl : forall a, lex_leb a a = true.
+Proof. induction a as [|x a IH]; simpl; auto. rewrite N.ltb_irrefl, N.eqb_refl. exact IH. Qed.
+
+Lemma lex_leb_same_suffix : forall a b s, length a = length b -> lex_leb (a ++ s) (b ++ s) = lex_leb a b.
 Proof.
-  intros a b Ha Hb. destruct a as [i| |k], b as [j| |k']; try reflexivity.
-  - simpl name_leb. unfold name_string. rewrite lex_leb_app_same, fixed_digits_order by assumption.
+  induction a as [|x a IH]; intros [|y b] s L; try discriminate; simpl.
+  - apply lex_leb_refl.
+  - destruct (x <? y); auto. destruct (x =? y); auto.
+Qed.
+
+Lemma fixed_digits_length : forall w i, length (fixed_digits w i) = w.
+Proof. induction w; intros i; simpl; auto. Qed.
+
+(* the marker is exactly '_SUCCESS', whatever the codec suffix of the target *)
+Theorem marker_name_plain : forall sfx, name_string sfx NMarker = [95; 83; 85; 67; 67; 69; 83; 83].
+Proof. intros sfx. unfold name_string. rewrite marker_suffixed_link, marker_base_link. reflexivity. Qed.
+
+Theorem name_order : forall sfx a b, valid_name a -> valid_name b ->
+  name_leb a b = lex_leb (name_string sfx a) (name_string sfx b).
+Proof.
+  intros sfx a b Ha Hb. destruct a as [i| |k], b as [j| |k']; try reflexivity.
+  - simpl name_leb. unfold name_string. rewrite lex_leb_app_same, lex_leb_same_suffix, fixed_digits_order by
+      (try assumption; rewrite !map_length, !fixed_digits_length; reflexivity).
     apply leb_nat_N.
   - simpl name_leb. unfold name_string. rewrite lex_other. unfold digit_char. rewrite leb_nat_N.
     destruct (N.leb_spec (N.of_nat k) (N.of_nat k')); symmetry; [apply N.leb_le|apply N.leb_gt]; lia.
 Qed.
+
+(* a part file's name never collides with the marker's, and distinct partitions get distinct names *)
+Theorem part_name_not_marker : forall sfx i, name_string sfx (NPart i) <> name_string sfx NMarker.
+Proof. intros sfx i. rewrite marker_name_plain. unfold name_string. rewrite part_prefix_link. discriminate. Qed.
